@@ -607,6 +607,24 @@ def run (j : Json) : R Json := do
         | _ => "err")
       let dedup := kinds.foldl (fun (acc : List String) k => if acc.getLast? = some k then acc else acc ++ [k]) []
       pure (jStrs dedup)
+  | "table" => do
+      -- the regenerated tables as the compiled model sees them (translator validation)
+      let name ← getS j "name"
+      let kInt : Int := match j.getObjVal? "k" with | .ok v => (v.getInt?.toOption).getD 0 | _ => 0
+      let kStr : String := optStr j "k"
+      let iS (t : List (Int × String)) (d : String) : Json := Json.str ((t.lookup kInt).getD d)
+      let sI (t : List (String × Int)) (d : Int) : Json := toJson ((t.lookup kStr).getD d)
+      pure (match name with
+        | "edgeToSPDX2" => Json.str (Spdx.edgeToSPDX2 kInt)
+        | "edgeFromSPDX2" => toJson (Spdx.edgeFromSPDX2 kStr)
+        | "edgeFromSPDX" => sI Gen.Tables.edgeFromSPDX Gen.Tables.edgeFromSPDX_default
+        | "hashToSPDX" => Json.str (Spdx.hashToSPDX kInt)
+        | "hashFromSPDX" => toJson (Spdx.hashFromSPDX kStr)
+        | "hashFromCDX" => toJson (Cdx.hashFromCDX kStr)
+        | "hashFromCycloneDX" => sI Gen.Tables.hashFromCycloneDX Gen.Tables.hashFromCycloneDX_default
+        | "identToSPDX2Type" => Json.str (Spdx.identType kInt)
+        | "identFromSPDXExtRefType" => sI Gen.Tables.identFromSPDXExtRefType Gen.Tables.identFromSPDXExtRefType_default
+        | _ => Json.str "no-such-table")
   | "newId" => do
       let seeds ← (← arrOf (← j.getObjVal? "seeds")).toList.mapM (fun (sd : Json) => do
         let bs ← arrOf sd
